@@ -323,10 +323,39 @@ Lookup(r, T, op) ==
   /\ regs' = [regs EXCEPT ![r] = res.R]
   /\ hist' = Append(hist, [a |-> "look", r |-> r, t |-> T, op |-> op, h |-> res.h,
                            allowed |-> SeqOf(LAllowed(regs[r], T, op))])
+\* (mutant "warm_start": a Glommer() with the default types starts with the memo of the module-level registry)
 NewGlommer(r, setorder) ==
   /\ ~regs[r].live
-  /\ regs' = [regs EXCEPT ![r] = PristineFor(RegKind[r], setorder)]
+  /\ regs' = [regs EXCEPT ![r] =
+                 IF Mutant = "warm_start" /\ RegKind[r] = "glommer" /\ "default" \in DOMAIN regs
+                 THEN [PristineFor(RegKind[r], setorder) EXCEPT !.cache = regs["default"].cache]
+                 ELSE PristineFor(RegKind[r], setorder)]
   /\ hist' = Append(hist, [a |-> "new", r |-> r])
+
+\* One wildcard step ('*', and every level of '**') on an instance of T: glom.core._extend_children asks the
+\* registry for the 'keys' handler and then the 'get' handler; if either is missing (UnregisteredTarget) it asks for
+\* the 'iterate' handler instead; with neither the target has no children.  Three memoised lookups in that order.
+\* The outcome names the handlers that enumerate the children.
+StarOutcome(hk, hg, hi) ==
+  IF hk # FalseH /\ hg # FalseH THEN [via |-> "keys+get", k |-> hk, g |-> hg, i |-> FalseH]
+  ELSE IF hi # FalseH THEN [via |-> "iterate", k |-> FalseH, g |-> FalseH, i |-> hi]
+  ELSE [via |-> "none", k |-> FalseH, g |-> FalseH, i |-> FalseH]
+\* the law: some combination of lawful handlers for the three operations gives this outcome
+StarAllowed(R, T) ==
+  {StarOutcome(a, b, c) : a \in LAllowed(R, T, "keys"), b \in LAllowed(R, T, "get"), c \in LAllowed(R, T, "iterate")}
+Star(r, T) ==
+  LET k  == MLookup(regs[r], T, "keys")
+      g  == IF k.h = FalseH THEN [R |-> k.R, h |-> FalseH] ELSE MLookup(k.R, T, "get")
+      kg == k.h # FalseH /\ g.h # FalseH
+      i  == IF kg THEN [R |-> g.R, h |-> FalseH] ELSE MLookup(g.R, T, "iterate")
+  IN /\ regs[r].live
+     /\ regs' = [regs EXCEPT ![r] = i.R]
+     /\ hist' = Append(hist, [a |-> "star", r |-> r, t |-> T,
+                              out |-> IF Mutant = "star_shortcut" /\ T \in {"dict", "list", "tuple"}
+                                      THEN (IF T = "dict" THEN StarOutcome(H("dictkeys", 0), H("getitem", 0), FalseH)
+                                            ELSE StarOutcome(FalseH, FalseH, H("iter", 0)))   \* registry not asked
+                                      ELSE StarOutcome(k.h, g.h, i.h),
+                              allowed |-> SeqOf(StarAllowed(regs[r], T))])
 
 \* ---- the laws as state / action predicates ---------------------------------------------
 Live == {r \in DOMAIN regs : regs[r].live}
@@ -345,7 +374,9 @@ CacheCoherent ==
     LET e == regs[r].cache[i] IN e.h = MResolve(regs[r], e.t, e.op)
 \* every handler actually handed out by a Lookup action was lawful
 HandedOutLawful ==
-  \A i \in 1..Len(hist) : hist[i].a = "look" => hist[i].h \in Range(hist[i].allowed)
+  \A i \in 1..Len(hist) :
+    /\ (hist[i].a = "look" => hist[i].h \in Range(hist[i].allowed))
+    /\ (hist[i].a = "star" => hist[i].out \in Range(hist[i].allowed))
 \* an action on one registry leaves every other registry unchanged
 IsolationStep ==
   LET a == hist'[Len(hist')] IN \A r \in DOMAIN regs : r # a.r => regs'[r] = regs[r]
